@@ -18,19 +18,42 @@ def concurrent_runs(arg):
     if scn.get("output") is None:
         scn["output"] = S.all_sinks_output(scn)
     strat = E.make_strategy(stratspec, rng)
-    files = detsched.ENGINE_FILES + ("uberjob/_run.py", "uberjob/_plan.py", "uberjob/_transformations/pruning.py", "uberjob/_transformations/__init__.py")
+    files = detsched.ENGINE_FILES + ("uberjob/_run.py", "uberjob/_plan.py", "uberjob/_registry.py", "uberjob/_transformations/pruning.py",
+                                     "uberjob/_transformations/__init__.py", "uberjob/_transformations/caching.py")
     sched = detsched.Scheduler(strat, preempt_files=files, opcode=False, step_budget=600000)
     ctx = E.Ctx(sched)
     b = S.build(scn, ctx)
     expected = S.expected_value(scn)
-    d0 = CS.plan_digest(b.plan)
+    reg = None
+    if seed % 2:
+        # a registry over some of the calls (in-memory stores that return what was written, nothing stored yet:
+        # every run rebuilds, so the value is the same as without a registry)
+        class _St(uberjob.ValueStore):
+            def __init__(self):
+                self.v = None
+                self.t = None
+
+            def read(self):
+                return self.v
+
+            def write(self, v):
+                self.v = v
+
+            def get_modified_time(self):
+                return None
+
+        reg = uberjob.Registry()
+        for cid in S.call_ids(scn):
+            if rng.random() < 0.5:
+                reg.add(b.node[cid], _St())
+    d0 = (CS.plan_digest(b.plan), CS.registry_digest(reg) if reg is not None else None)
     results = [None] * nthreads
     errors = []
 
     def body():
         def one(i):
             try:
-                results[i] = uberjob.run(b.plan, output=b.output, max_workers=rng.choice([1, 2]), progress=None, scheduler=rng.choice([None, "random"]))
+                results[i] = uberjob.run(b.plan, output=b.output, registry=reg, max_workers=rng.choice([1, 2]), progress=None, scheduler=rng.choice([None, "random"]))
             except BaseException as ex:  # noqa
                 errors.append(repr(ex)[:300])
 
@@ -54,8 +77,8 @@ def concurrent_runs(arg):
         if not errors and (r != expected or type(r) is not type(expected)):
             res["fails"].append({"what": "concurrent_run_wrong_value", "detail": f"thread {i}: {r!r:.200}"})
             break
-    if CS.plan_digest(b.plan) != d0:
-        res["fails"].append({"what": "plan_changed_by_concurrent_runs", "detail": ""})
+    if (CS.plan_digest(b.plan), CS.registry_digest(reg) if reg is not None else None) != d0:
+        res["fails"].append({"what": "plan_changed_by_concurrent_runs", "detail": "the caller's Plan / Registry differ after the concurrent runs returned"})
     return res
 
 
@@ -154,7 +177,7 @@ def shared_registry(arg):
             except Exception:
                 pass
             if (CS.registry_digest(reg), CS.plan_digest(plan)) != d0:
-                fails.append({"what": "registry_changed_by_run", "detail": f"dry_run={dry}: {len(d0[0])} entries before, {len(CS.registry_digest(reg))} after"})
+                fails.append({"what": "registry_changed_by_run", "detail": f"dry_run={dry}: {len(d0[0][3])} entries before, {len(CS.registry_digest(reg)[3])} after"})
                 return {"fails": fails}
     return {"fails": fails}
 
